@@ -127,7 +127,7 @@ def buildBucket (dayStr : Nat → String) (c : Cfg) (recs : List Json) : Except 
 /-- one lookup {"cat","s","e","now","f","lim","random","ch","rot","unfixed"} on a bucket → {"ids":[..]} | "TypeError" -/
 def oneWindow (dayStr : Nat → String) (c : Cfg) (b : Bucket) (j : Json) : Except String Json := do
   let unfixed := (optField j "unfixed").map (fun v => v == Json.bool true) |>.getD false
-  let days := if unfixed then prefixDaysUnfixed else prefixDays
+  let days := if unfixed then prefixDaysUnfixed else prefixDaysSrc
   let rot := (optNat j "rot").toOption.join.getD 0
   let draws ← toDraws j
   let random := (optField j "random").map (fun v => v == Json.bool true) |>.getD false
@@ -154,7 +154,7 @@ def multiH : Handler := fun j => do
 /-- {"m":"c16.days","s","e","unfixed"} → the enumerated day numbers -/
 def daysH : Handler := fun j => do
   let unfixed := (optField j "unfixed").map (fun v => v == Json.bool true) |>.getD false
-  let days := if unfixed then prefixDaysUnfixed else prefixDays
+  let days := if unfixed then prefixDaysUnfixed else prefixDaysSrc
   .ok (jArr ((days (← natField j "s") (← natField j "e")).map jNat))
 
 def handlers : List (String × Handler) :=
